@@ -3,7 +3,8 @@ PROPS["C14"] = dict(
     technique="model-based PBT (rapid) against a slice model + bounded-exhaustive op-list enumeration",
     rule="case = (capacity, op list over Write/Read/ReadN/Skip/At/Clear); exhaustive over the full op alphabet "
          "(ReadN len 0..cap+2, Skip -1..cap+2 and MaxInt, At -1..cap+1 and MaxInt) for capacities 0..3(4) to the depth in exhaustive_parts, rapid lists "
-         "for capacities 0..300 with arguments that also include +-2^31, +-2^40, MaxInt, MinInt; a shapes unit runs the same contract with other element types: strings and structs whose text looks like a format directive, and a "
+         "for capacities 0..300 with arguments that also include +-2^31, +-2^40, MaxInt, MinInt, and (one case in eleven) capacities 301..5000 incl. 2^k-1, 2^k, 2^k+1 whose short lists mix single calls with bulk fills "
+         "(N Write calls, N around the capacity - to the brim and beyond - or anywhere below; the O(cap) cleared-slot sweep then follows every non-Write op and every 64th Write); a shapes unit runs the same contract with other element types: strings and structs whose text looks like a format directive, and a "
          "zero-size element type with capacities up to MaxInt-1 (which only such a type can have); non-trivial = some op spanned the wrap point of the backing array, or Write hit Len==Cap, "
          "or Read hit empty; distinct = FNV hash of (capacity, op list)",
     assumptions=["slice model of a bounded FIFO written from the RingBuffer interface comments and the C14 statement",
@@ -11,7 +12,7 @@ PROPS["C14"] = dict(
     units=[
         dict(name="exhaustive", run="^TestC14Exhaustive$", shards=(4, 16), timeout=(200, 1500)),
         dict(name="shapes", run="^TestC14Shapes$", checks=(3000, 30000), shards=(1, 8), timeout=(200, 1500)),
-        dict(name="rapid", run="^TestC14Rapid$", checks=(30000, 60000), shards=(2, 16), timeout=(200, 1500)),
+        dict(name="rapid", run="^TestC14Rapid$", checks=(20000, 60000), shards=(2, 16), timeout=(200, 1500)),
     ],
 )
 
